@@ -57,13 +57,28 @@ def handleRd0 (o : Op) : String :=
   | some f, some s =>
     let tag := tagOf o
     match f, tag with
-    | "any", _ => fin "H" ((readAnyASN1 s).map fun (t, b, r) => s!"tag={toHex [t]} out={showB b} rest={showB r}")
-    | "anyel", _ => fin "" ((readAnyASN1Element s).map fun (t, b, r) => s!"tag={toHex [t]} out={showB b} rest={showB r}")
+    | "any", _ =>
+      let nt := o.get? "nt" == some "1"      -- outTag = nil
+      fin "H" ((readAnyASN1 s).map fun (t, b, r) => s!"tag={if nt then "na" else toHex [t]} out={showB b} rest={showB r}")
+    | "anyel", _ =>
+      let nt := o.get? "nt" == some "1"
+      fin "" ((readAnyASN1Element s).map fun (t, b, r) => s!"tag={if nt then "na" else toHex [t]} out={showB b} rest={showB r}")
+    | "intbad", _ => "panic"                 -- ReadASN1Integer(*string): "out does not point to an integer type"
+    | "optbad", some t =>                    -- ReadOptionalASN1Integer(*string, …): panics once the optional element is located
+      match readOptional t s with
+      | some _ => "panic"
+      | none => fin "" none
+    | "optbigbad", some t =>                 -- out *big.Int with an int default: panics only when the element is absent
+      match readOptional t s with
+      | some (false, _, _) => "panic"
+      | _ => fin "" ((readOptionalWith readBigInt 0 t s).map fun (v, r) => s!"v={v} rest={showB r}")
     | "asn1", some t => fin "" ((readASN1Tag t s).map fun (b, r) => s!"out={showB b} rest={showB r}")
     | "elem", some t => fin "" ((readASN1ElementTag t s).map fun (b, r) => s!"out={showB b} rest={showB r}")
     | "skip", some t => fin "" ((readASN1Tag t s).map fun (_, r) => s!"rest={showB r}")
     | "peek", some t => s!"ok v={b01 (peekTag t s)} asn1=na agree=na"
-    | "opt", some t => fin "" ((readOptional t s).map fun (p, b, r) => s!"present={b01 p} out={showB b} rest={showB r}")
+    | "opt", some t =>
+      let np := o.get? "np" == some "1"      -- outPresent = nil
+      fin "" ((readOptional t s).map fun (p, b, r) => s!"present={if np then "na" else b01 p} out={showB b} rest={showB r}")
     | "skipopt", some t => fin "" ((skipOptional t s).map fun r => s!"rest={showB r}")
     | "bigint", _ => fin "S" ((readBigInt s).map fun (v, r) => s!"v={v} rest={showB r}")
     | "intbytes", _ => fin "" ((readIntBytes s).map fun (b, r) => s!"out={showB b} rest={showB r}")
@@ -97,7 +112,8 @@ def handleRd0 (o : Op) : String :=
       | some d => fin "" ((readOptionalBool (d != 0) t s).map fun (v, r) => s!"v={b01 v} rest={showB r}")
       | none => "bad-op"
     | "optoctet", some t =>
-      fin "" ((readOptionalOctets t s).map fun (p, b, r) => s!"present={b01 p} out={showB b} rest={showB r}")
+      let np := o.get? "np" == some "1"
+      fin "" ((readOptionalOctets t s).map fun (p, b, r) => s!"present={if np then "na" else b01 p} out={showB b} rest={showB r}")
     | f, _ =>
       match signedBits f, unsignedBits f with
       | some bits, _ =>
@@ -110,7 +126,7 @@ def handleRd0 (o : Op) : String :=
 /-- readers never write to their input: `mutated=0` -/
 def handleRd (o : Op) : String :=
   let r := handleRd0 o
-  if r == "bad-op" then r else r ++ " mutated=0"
+  if r == "bad-op" || r == "panic" then r else r ++ " mutated=0"
 
 def intList (s : String) : Option (List Int) :=
   if s == "-" then some [] else (s.splitOn ".").mapM String.toInt?
@@ -185,8 +201,30 @@ def handleAdd (o : Op) : String :=
     | _, _ => "bad-op"
   | _ => "bad-op"
 
+/-- cryptobyte/asn1: the Tag constants and the two class helpers -/
+def tagConst : String → Option UInt8
+  | "BOOLEAN" => some 1 | "INTEGER" => some 2 | "BIT_STRING" => some 3 | "OCTET_STRING" => some 4
+  | "NULL" => some 5 | "OBJECT_IDENTIFIER" => some 6 | "ENUM" => some 10 | "UTF8String" => some 12
+  | "SEQUENCE" => some 0x30 | "SET" => some 0x31 | "PrintableString" => some 19 | "T61String" => some 20
+  | "IA5String" => some 22 | "UTCTime" => some 23 | "GeneralizedTime" => some 24 | "GeneralString" => some 27
+  | _ => none
+
+def handleTag (o : Op) : String :=
+  match o.get? "f" with
+  | some "const" => match (o.get? "name").bind tagConst with
+    | some t => s!"ok {toHex [t]}"
+    | none => "bad-op"
+  | some "constructed" => match tagOf o with
+    | some t => s!"ok {toHex [t ||| 0x20]}"
+    | none => "bad-op"
+  | some "contextspecific" => match tagOf o with
+    | some t => s!"ok {toHex [t ||| 0x80]}"
+    | none => "bad-op"
+  | _ => "bad-op"
+
 def handle (line : String) : String :=
   let o := parseOp line
+  if o.cmd == "tag" then handleTag o else
   if o.cmd == "rd" then handleRd o
   else if o.cmd == "add" then handleAdd o
   else if o.cmd == "time" then "time agree=1"
